@@ -843,6 +843,9 @@ class Super:
                 f = fn_of(t)
                 # foreign higher-order function receiving local closures: may run them
                 cls = [c for c in (f or {}).get("closures", []) if c in self.crate.by_id] if f else []
+                # a same-crate function handed over by name (`.map_err(source_failure)`) runs like a closure
+                if f and not f.get("local"):
+                    cls += [a["def"] for a in t["args"] if a.get("k") == "fn" and a.get("def") in self.crate.by_id and a["def"] not in cls]
                 if f and not cls and path:
                     cls = self._inherited_closures(node, t)
                 if cls and len(path) < self.depth and f["def"] not in CLOSURE_CALLS:
@@ -1328,6 +1331,24 @@ class PathSens:
                     # the mapping function is a plain fn item (`.map(drop)`): the variant is kept, the payload unknown
                     if f["def"].rsplit("::", 1)[-1] in ("map_err", "map") and not f["def"].startswith("core::bool") and "bool" not in f["def"]:
                         f2[dkey] = ("var", recv)
+                if f and not dest["pr"] and len(t["args"]) == 2 and f["def"] in ("std::result::Result::<T, E>::and", "std::result::Result::<T, E>::or", "std::option::Option::<T>::and", "std::option::Option::<T>::or"):
+                    # eager combinators: `a.and(b)` is b when a is Ok/Some, else a's Err/None; `a.or(b)` the reverse
+                    af, apf, _ = self._operand_fact(facts, path, t["args"][0])
+                    bf, bpf, _ = self._operand_fact(facts, path, t["args"][1])
+                    is_res = f["def"].startswith("std::result")
+                    good = 0 if is_res else 1  # index of Ok / Some
+                    keeps_a_when = (1 - good) if f["def"].endswith("::and") else good
+                    if af is not None and af[0] == "var":
+                        if af[1] == keeps_a_when:
+                            f2[dkey] = ("var", af[1])
+                            if apf is not None and self.payloads and f["def"].endswith("::and") is False:
+                                f2[self._pk(dkey)] = apf
+                            elif apf is not None and self.payloads and is_res:
+                                f2[self._pk(dkey)] = apf
+                        elif bf is not None and bf[0] == "var":
+                            f2[dkey] = bf
+                            if bpf is not None and self.payloads:
+                                f2[self._pk(dkey)] = bpf
                 if f and not dest["pr"] and f["def"] in ("core::bool::<impl bool>::then_some", "std::bool::<impl bool>::then_some", "core::bool::<impl bool>::then", "std::bool::<impl bool>::then") and t["args"]:
                     cf_ = self._operand_fact(facts, path, t["args"][0])[0]
                     if cf_ and cf_[0] == "const":
